@@ -49,18 +49,27 @@ func runC16(env core.Env, rep *core.Report) {
 	rep.Rule = "one evaluation = one HTTP request (route x parameter/body alphabet) on one store shape under one auth mode; non-trivial = at least one parameter or the body is not a well-formed value of its type (or names a stale/orphan/genesis/unknown header); distinct by (store, auth mode, method, target, body)"
 	rep.Bound = "[complete product per route of the path/query/body alphabets (8 hash forms, 11 integer forms, 13-15 body forms) on 3 store shapes x {auth off, auth on with a valid token}]"
 	job := 0
-	for _, sh := range shapes() {
+	all := shapes()
+	if env.Tier == "thorough" {
+		// every blueprint of 3 headers over two difficulty values (192 labelled forests), in arrival
+		// order 1,2,3 and in reverse (which turns children into orphans)
+		rep.Bound += " [thorough: additionally all 192 blueprints N=3,|W|=2 x arrival orders {1 2 3, 3 2 1}, and every single-character deletion / substitution of one well-formed body per POST route]"
+		core.EnumBlueprints(3, core.WAlphabet(2), func(idx int, b core.Blueprint) {
+			all = append(all, shape{fmt.Sprintf("blueprint %s order 123", b), b, []int{1, 2, 3}}, shape{fmt.Sprintf("blueprint %s order 321", b), b, []int{3, 2, 1}})
+		})
+	}
+	for si, sh := range all {
 		for _, auth := range []bool{false, true} {
 			job++
 			if !env.Mine(job) || rep.Expired() {
 				continue
 			}
-			c16store(rep, sh, auth)
+			c16store(rep, sh, auth, env.Tier == "thorough" && si < 3)
 		}
 	}
 }
 
-func c16store(rep *core.Report, sh shape, auth bool) {
+func c16store(rep *core.Report, sh shape, auth bool, mutateBodies bool) {
 	u := core.Fabricate(sh.b, 0)
 	path := core.NewStoreFile()
 	rig := core.OpenRig(path, core.RigOpts{Cfg: func(c *config.AppConfig) { c.HTTP.UseAuth = auth }})
@@ -167,6 +176,16 @@ func c16store(rep *core.Report, sh shape, auth bool) {
 	}
 	for _, p := range []string{"/api/v1/chain/tip", "/api/v1/chain/tip/longest", "/api/v1/network/peer", "/api/v1/network/peer/count", "/api/v1/access"} {
 		add("GET", p, "", "", "wellformed")
+	}
+	if mutateBodies {
+		for route, body := range map[string]string{"/api/v1/chain/header/commonAncestor": caBodies[1], "/api/v1/chain/merkleroot/verify": vfBodies[1], "/api/v1/webhook": whBodies[0]} {
+			for i := 0; i < len(body); i++ {
+				add("POST", route, body[:i]+body[i+1:], "application/json", "odd")
+				for _, c := range []string{"\"", "{", "]", "0", "\x00"} {
+					add("POST", route, body[:i]+c+body[i+1:], "application/json", "odd")
+				}
+			}
+		}
 	}
 	add("POST", "/api/v1/access", "", "", "wellformed")
 	add("POST", "/api/v1/access", "garbage", "application/json", "odd")
